@@ -74,12 +74,12 @@ func RunAll(run *hlib.Run, prop string, sigPrefixes []string, n int) {
 		}
 		jobs = append(jobs, job{s, c})
 	}
-	hangs := 0
+	hangs, ownFails := 0, 0
 	for idx := 0; idx < len(jobs); idx++ {
 		if idx < len(seeds) && !run.Mine(idx) {
 			continue
 		}
-		if hangs >= 6 {
+		if (hangs >= 6 && ownFails > 0) || hangs >= 24 {
 			// the tree under test hangs again and again (each hang costs the 8 s bound): the violation is established
 			// and recorded with replays; the rest of this worker's scenarios are skipped to keep the check's run time bounded
 			run.Count("skipped-after-repeated-hangs")
@@ -128,6 +128,7 @@ func RunAll(run *hlib.Run, prop string, sigPrefixes []string, n int) {
 				}
 			}
 			if mine {
+				ownFails++
 				in := "sc " + strconv.FormatUint(s, 10)
 				if sc.CloseAtEvent >= 0 {
 					in += fmt.Sprintf(" closeAtEvent=%d", sc.CloseAtEvent)
